@@ -2,6 +2,7 @@
 //! inputs and prints everything observable to a `.cases` file for comparison with the Coq model.
 mod cli;
 mod common;
+mod components;
 mod encoders;
 mod equiv;
 mod dynamic;
@@ -64,6 +65,7 @@ fn main() {
     let mut out = Out::default();
     match mode.as_str() {
         "store" => store::run(&mut rng, count, thorough, &mut out),
+        "components" => components::run(&mut rng, count, thorough, &mut out),
         "equiv" => equiv::run(&mut rng, count, thorough, &equiv::Cfg::from_extra(&extra), &mut out),
         "static" => statics::run(&mut rng, count, thorough, &statics::Cfg::from_extra(&extra, 1), &mut out),
         "meta" => meta::run_meta(&mut rng, count, thorough, &extra, &mut out),
